@@ -334,3 +334,267 @@ Proof.
   rewrite (sp_sum_others ws i Hi), (sp_sum_others ws' i' Hi'), Hw, (sp_sum_perm _ _ Hperm).
   reflexivity.
 Qed.
+
+(* ------------------------------------------------------------------ the conditional event is an interval *)
+Lemma sp_lose_interval :
+  forall u v wi wj, 0 < u < 1 -> 0 < v -> 0 < wi -> 0 < wj ->
+    (sp_key v wj < sp_key u wi <-> v < Rpower u (wj / wi)).
+Proof.
+  intros u v wi wj Hu Hv Hwi Hwj. unfold sp_key.
+  assert (E : ln u / wi = ln (Rpower u (wj / wi)) / wj).
+  { rewrite ln_Rpower. field. lra. }
+  rewrite E. pose proof (sp_Rpower_pos u (wj / wi)) as Hp. split; intros H.
+  - apply ln_lt_inv; try assumption.
+    apply Rmult_lt_reg_r with (/ wj); [apply Rinv_0_lt_compat; assumption | exact H].
+  - apply Rmult_lt_compat_r; [apply Rinv_0_lt_compat; assumption|].
+    apply ln_increasing; assumption.
+Qed.
+
+Lemma sp_lose_interval_bounds :
+  forall u wi wj, 0 < u < 1 -> 0 < wi -> 0 < wj -> 0 < Rpower u (wj / wi) < 1.
+Proof.
+  intros u wi wj Hu Hwi Hwj. split; [apply sp_Rpower_pos|].
+  apply sp_Rpower_lt1; [assumption|]. apply Rdiv_lt_0_compat; assumption.
+Qed.
+
+(* ------------------------------------------------------------------ the three forms of the key have the same order *)
+Lemma sp_ares_key_order :
+  forall u w u' w',
+    (sp_ares_key u w < sp_ares_key u' w' <-> sp_key u w < sp_key u' w').
+Proof.
+  intros u w u' w'. unfold sp_ares_key, sp_key, Rpower.
+  replace (1 / w * ln u) with (ln u / w) by (unfold Rdiv; ring).
+  replace (1 / w' * ln u') with (ln u' / w') by (unfold Rdiv; ring).
+  split; [apply exp_lt_inv | apply exp_increasing].
+Qed.
+
+Lemma sp_ares_key_is_exp : forall u w, sp_ares_key u w = exp (sp_key u w).
+Proof.
+  intros u w. unfold sp_ares_key, sp_key, Rpower. f_equal. unfold Rdiv; ring.
+Qed.
+
+Lemma sp_gumbel_key_eq :
+  forall u w, 0 < u < 1 -> 0 < w -> sp_gumbel_key u w = - ln (- sp_key u w).
+Proof.
+  intros u w Hu Hw. unfold sp_gumbel_key, sp_key.
+  pose proof (sp_ln_neg u Hu) as Hl.
+  replace (- (ln u / w)) with ((- ln u) * / w) by (unfold Rdiv; ring).
+  rewrite ln_mult; [| lra | apply Rinv_0_lt_compat; assumption].
+  rewrite ln_Rinv by assumption. ring.
+Qed.
+
+Lemma sp_key_neg : forall u w, 0 < u < 1 -> 0 < w -> sp_key u w < 0.
+Proof.
+  intros u w Hu Hw. unfold sp_key. pose proof (sp_ln_neg u Hu) as Hl.
+  unfold Rdiv. pose proof (Rinv_0_lt_compat w Hw). nra.
+Qed.
+
+Lemma sp_gumbel_key_order :
+  forall u w u' w', 0 < u < 1 -> 0 < w -> 0 < u' < 1 -> 0 < w' ->
+    (sp_gumbel_key u w < sp_gumbel_key u' w' <-> sp_key u w < sp_key u' w').
+Proof.
+  intros u w u' w' Hu Hw Hu' Hw'.
+  rewrite !sp_gumbel_key_eq by assumption.
+  pose proof (sp_key_neg u w Hu Hw) as Hk. pose proof (sp_key_neg u' w' Hu' Hw') as Hk'.
+  split; intros H.
+  - assert (H' : ln (- sp_key u' w') < ln (- sp_key u w)) by lra.
+    apply ln_lt_inv in H'; lra.
+  - assert (H' : ln (- sp_key u' w') < ln (- sp_key u w)); [|lra].
+    apply ln_increasing; lra.
+Qed.
+
+(* ------------------------------------------------------------------ integrals of indicator functions *)
+(* a function with value a on (0,c) and b on (c,1); the values at 0, c, 1 are irrelevant *)
+Lemma sp_is_RInt_step :
+  forall (f : R -> R) (c a b : R), 0 <= c <= 1 ->
+    (forall v, 0 < v < c -> f v = a) -> (forall v, c < v < 1 -> f v = b) ->
+    is_RInt f 0 1 (a * c + b * (1 - c)).
+Proof.
+  intros f c a b Hc Hlo Hhi.
+  apply (is_RInt_Chasles f 0 c 1 (a * c) (b * (1 - c))).
+  - apply is_RInt_ext with (f := fun _ => a).
+    + intros v Hv. rewrite Rmin_left, Rmax_right in Hv by lra. symmetry. apply Hlo. assumption.
+    + replace (a * c) with (scal (c - 0) a) by (unfold scal; simpl; unfold mult; simpl; ring).
+      apply @is_RInt_const.
+  - apply is_RInt_ext with (f := fun _ => b).
+    + intros v Hv. rewrite Rmin_left, Rmax_right in Hv by lra. symmetry. apply Hhi. assumption.
+    + replace (b * (1 - c)) with (scal (1 - c) b) by (unfold scal; simpl; unfold mult; simpl; ring).
+      apply @is_RInt_const.
+Qed.
+
+Lemma sp_key_lt_iff :
+  forall v v' w, 0 < v -> 0 < v' -> 0 < w -> (sp_key v w < sp_key v' w <-> v < v').
+Proof.
+  intros v v' w Hv Hv' Hw. unfold sp_key. split; intros H.
+  - apply ln_lt_inv; try assumption.
+    apply Rmult_lt_reg_r with (/ w); [apply Rinv_0_lt_compat; assumption | exact H].
+  - apply Rmult_lt_compat_r; [apply Rinv_0_lt_compat; assumption|].
+    apply ln_increasing; assumption.
+Qed.
+
+Lemma sp_key_Rpower :
+  forall u wi wj, 0 < wi -> 0 < wj -> sp_key u wi = sp_key (Rpower u (wj / wi)) wj.
+Proof.
+  intros u wi wj Hwi Hwj. unfold sp_key. rewrite ln_Rpower. field. lra.
+Qed.
+
+(* the dual form: for fixed v the set of u that beat it is (v^(wi/wj), 1) *)
+Lemma sp_win_interval :
+  forall u v wi wj, 0 < u -> 0 < v < 1 -> 0 < wi -> 0 < wj ->
+    (sp_key v wj < sp_key u wi <-> Rpower v (wi / wj) < u).
+Proof.
+  intros u v wi wj Hu Hv Hwi Hwj.
+  rewrite (sp_key_Rpower v wj wi Hwj Hwi).
+  apply sp_key_lt_iff; try assumption. apply sp_Rpower_pos.
+Qed.
+
+(* conditional on u_i = u: P(u_j loses) = u^(wj/wi), as the integral of the indicator *)
+Lemma sp_is_RInt_lose_ind :
+  forall u wi wj, 0 < u < 1 -> 0 < wi -> 0 < wj ->
+    is_RInt (fun v => sp_lt_ind (sp_key v wj) (sp_key u wi)) 0 1 (Rpower u (wj / wi)).
+Proof.
+  intros u wi wj Hu Hwi Hwj.
+  pose proof (sp_lose_interval_bounds u wi wj Hu Hwi Hwj) as Hc.
+  replace (Rpower u (wj / wi)) with (1 * Rpower u (wj / wi) + 0 * (1 - Rpower u (wj / wi))) by ring.
+  apply sp_is_RInt_step; [lra | |]; intros v Hv; unfold sp_lt_ind;
+    destruct (Rlt_dec (sp_key v wj) (sp_key u wi)) as [H|H]; try reflexivity; exfalso.
+  - apply H. apply sp_lose_interval; try assumption; lra.
+  - apply sp_lose_interval in H; try assumption; lra.
+Qed.
+
+(* conditional on u_j = v: P(u_i wins) = 1 - v^(wi/wj) *)
+Lemma sp_is_RInt_win_ind :
+  forall v wi wj, 0 < v < 1 -> 0 < wi -> 0 < wj ->
+    is_RInt (fun u => sp_lt_ind (sp_key v wj) (sp_key u wi)) 0 1 (1 - Rpower v (wi / wj)).
+Proof.
+  intros v wi wj Hv Hwi Hwj.
+  pose proof (sp_lose_interval_bounds v wj wi Hv Hwj Hwi) as Hc.
+  replace (1 - Rpower v (wi / wj)) with (0 * Rpower v (wi / wj) + 1 * (1 - Rpower v (wi / wj))) by ring.
+  apply sp_is_RInt_step; [lra | |]; intros u Hu; unfold sp_lt_ind;
+    destruct (Rlt_dec (sp_key v wj) (sp_key u wi)) as [H|H]; try reflexivity; exfalso.
+  - apply sp_win_interval in H; try assumption; lra.
+  - apply H. apply sp_win_interval; try assumption; lra.
+Qed.
+
+(* two items, the probability as the double integral of the indicator of the event;
+   u_i outermost *)
+Theorem sp_k1_n2_indicator :
+  forall wi wj, 0 < wi -> 0 < wj ->
+    is_RInt (fun u => RInt (fun v => sp_lt_ind (sp_key v wj) (sp_key u wi)) 0 1) 0 1
+            (wi / (wi + wj)).
+Proof.
+  intros wi wj Hwi Hwj.
+  apply is_RInt_ext with (f := fun u => Rpower u (wj / wi)).
+  - intros u Hu. rewrite Rmin_left, Rmax_right in Hu by lra.
+    symmetry. apply is_RInt_unique. apply sp_is_RInt_lose_ind; assumption.
+  - replace (wi / (wi + wj)) with (Rpower 1 (wj / wi + 1) / (wj / wi + 1)).
+    + apply sp_is_RInt_Rpower; [|lra]. left. apply Rdiv_lt_0_compat; assumption.
+    + rewrite sp_Rpower_1l. field. lra.
+Qed.
+
+(* the other order of integration (u_j outermost) gives the same value: the instance of
+   the exchange of the order of integration for this event *)
+Theorem sp_k1_n2_indicator_swapped :
+  forall wi wj, 0 < wi -> 0 < wj ->
+    is_RInt (fun v => RInt (fun u => sp_lt_ind (sp_key v wj) (sp_key u wi)) 0 1) 0 1
+            (wi / (wi + wj)).
+Proof.
+  intros wi wj Hwi Hwj.
+  apply is_RInt_ext with (f := fun v => minus 1 (Rpower v (wi / wj))).
+  - intros v Hv. rewrite Rmin_left, Rmax_right in Hv by lra.
+    symmetry. apply is_RInt_unique. apply sp_is_RInt_win_ind; assumption.
+  - replace (wi / (wi + wj)) with (minus (scal (1 - 0) 1) (Rpower 1 (wi / wj + 1) / (wi / wj + 1))).
+    + apply @is_RInt_minus; [apply @is_RInt_const|].
+      apply sp_is_RInt_Rpower; [|lra]. left. apply Rdiv_lt_0_compat; assumption.
+    + rewrite sp_Rpower_1l. unfold minus, plus, opp, scal; simpl. unfold mult; simpl. field. lra.
+Qed.
+
+(* ------------------------------------------------------------------ any number of items: iterated integral of the indicator *)
+Lemma sp_is_iint_scal :
+  forall n f l c, sp_is_iint n f l -> sp_is_iint n (fun t => c * f t) (c * l).
+Proof.
+  induction n as [|n IH]; intros f l c H; simpl in *.
+  - rewrite H. reflexivity.
+  - destruct H as [g [Hin Hout]]. exists (fun x => c * g x). split.
+    + intros x Hx. apply (IH (fun t => f (x :: t))). apply Hin. assumption.
+    + apply (is_RInt_scal g 0 1 c l Hout).
+Qed.
+
+Lemma sp_is_iint_ext :
+  forall n f f' l, (forall t, f t = f' t) -> sp_is_iint n f l -> sp_is_iint n f' l.
+Proof.
+  induction n as [|n IH]; intros f f' l He H; simpl in *.
+  - rewrite <- He. assumption.
+  - destruct H as [g [Hin Hout]]. exists g. split; [|assumption].
+    intros x Hx. apply (IH (fun t => f (x :: t))); [intros t; apply He | apply Hin; assumption].
+Qed.
+
+(* conditional on u_i = u the competitors lose independently: the iterated integral of
+   the product of the indicators is the product of the interval lengths *)
+Lemma sp_beats_iint :
+  forall u wi wo, 0 < u < 1 -> 0 < wi -> sp_pos wo ->
+    sp_is_iint (length wo) (fun vs => sp_beats_ind u wi vs wo)
+               (sp_prod (map (fun wj => Rpower u (wj / wi)) wo)).
+Proof.
+  intros u wi wo Hu Hwi. induction 1 as [|wj wo Hwj Hwo IH]; simpl.
+  - reflexivity.
+  - set (P := sp_prod (map (fun wj0 => Rpower u (wj0 / wi)) wo)) in *.
+    exists (fun x => P * sp_lt_ind (sp_key x wj) (sp_key u wi)). split.
+    + intros x Hx.
+      apply sp_is_iint_ext with (f := fun t => sp_lt_ind (sp_key x wj) (sp_key u wi) * sp_beats_ind u wi t wo).
+      * intros t. reflexivity.
+      * rewrite Rmult_comm. apply sp_is_iint_scal. exact IH.
+    + rewrite Rmult_comm.
+      apply (is_RInt_scal (fun x => sp_lt_ind (sp_key x wj) (sp_key u wi)) 0 1 P).
+      apply sp_is_RInt_lose_ind; assumption.
+Qed.
+
+Theorem sp_k1_indicator_integral :
+  forall ws i, sp_pos ws -> (i < length ws)%nat ->
+    sp_is_win_prob_ind ws i (nth i ws 0 / sp_sum ws).
+Proof.
+  intros ws i Hp Hi. unfold sp_is_win_prob_ind. simpl.
+  exists (sp_integrand ws i). split.
+  - intros u Hu. unfold sp_integrand.
+    apply sp_beats_iint; [assumption | apply sp_pos_nth; assumption | apply sp_pos_others; assumption].
+  - apply sp_k1_is_RInt; assumption.
+Qed.
+
+(* the iterated integral is unique, so the indicator integral IS sp_win_prob *)
+Lemma sp_is_iint_unique :
+  forall n f l l', sp_is_iint n f l -> sp_is_iint n f l' -> l = l'.
+Proof.
+  induction n as [|n IH]; intros f l l' H H'; simpl in *.
+  - congruence.
+  - destruct H as [g [Hin Hout]]. destruct H' as [g' [Hin' Hout']].
+    rewrite <- (is_RInt_unique _ _ _ _ Hout), <- (is_RInt_unique _ _ _ _ Hout').
+    apply RInt_ext. intros x Hx. rewrite Rmin_left, Rmax_right in Hx by lra.
+    apply (IH (fun t => f (x :: t))); [apply Hin | apply Hin']; assumption.
+Qed.
+
+Theorem sp_k1_indicator_integral_unique :
+  forall ws i p, sp_pos ws -> (i < length ws)%nat ->
+    sp_is_win_prob_ind ws i p -> p = sp_win_prob ws i.
+Proof.
+  intros ws i p Hp Hi H. rewrite sp_k1_probability by assumption.
+  apply (sp_is_iint_unique _ _ _ _ H). apply sp_k1_indicator_integral; assumption.
+Qed.
+
+(* the indicator really is the indicator of the event sp_wins (for the rearranged draw:
+   u_i first, then the competitors) *)
+Lemma sp_beats_ind_spec :
+  forall u wi vs wo, length vs = length wo ->
+    (sp_beats_ind u wi vs wo = 1 <->
+     forall j, (j < length wo)%nat -> sp_key (nth j vs 0) (nth j wo 0) < sp_key u wi) /\
+    (sp_beats_ind u wi vs wo = 1 \/ sp_beats_ind u wi vs wo = 0).
+Proof.
+  intros u wi vs. induction vs as [|v vs IH]; intros [|wj wo] Hlen; simpl in Hlen; try discriminate.
+  - simpl. split; [|left; reflexivity]. split; [intros _ j Hj; lia | reflexivity].
+  - injection Hlen as Hlen. destruct (IH wo Hlen) as [IH1 IH2]. simpl.
+    unfold sp_lt_ind. destruct (Rlt_dec (sp_key v wj) (sp_key u wi)) as [Hlt|Hnlt].
+    + rewrite Rmult_1_l. split; [|exact IH2]. rewrite IH1. split.
+      * intros H [|j] Hj; simpl; [exact Hlt | apply H; lia].
+      * intros H j Hj. apply (H (S j)). lia.
+    + rewrite Rmult_0_l. split; [|right; reflexivity]. split; [lra|].
+      intros H. exfalso. apply Hnlt. apply (H O). lia.
+Qed.
